@@ -2,6 +2,7 @@
 attributes so that everything under /SIMFS goes to the simulator and everything else passes through.
 """
 import builtins
+import errno
 import io
 import os
 import random as _random
@@ -253,6 +254,14 @@ def _mk_wrappers():
             return fs.os_fstat(fd)
         return R["fstat"](fd)
 
+    def sendfile(out_fd, in_fd, offset, count, *a, **kw):
+        fs = _STATE["fs"]
+        if fs is not None and (_isfd(out_fd) or _isfd(in_fd)):
+            if _isfd(out_fd) and _isfd(in_fd):
+                return fs.os_sendfile(out_fd, in_fd, offset, count)
+            raise OSError(errno.EINVAL, os.strerror(errno.EINVAL))  # one end is not a file of the simulated disk
+        return R["sendfile"](out_fd, in_fd, offset, count, *a, **kw)
+
     def lseek(fd, pos, how):
         fs = _STATE["fs"]
         if fs is not None and _isfd(fd):
@@ -307,7 +316,7 @@ def _mk_wrappers():
 
 _OS_NAMES = ["stat", "lstat", "access", "listdir", "scandir", "mkdir", "rmdir", "remove", "unlink", "rename",
              "replace", "link", "symlink", "readlink", "utime", "chmod", "truncate", "open", "close", "read",
-             "write", "fstat", "lseek", "ftruncate", "fsync", "fdatasync", "listxattr", "urandom", "getpid", "getcwd"]
+             "write", "fstat", "sendfile", "lseek", "ftruncate", "fsync", "fdatasync", "listxattr", "urandom", "getpid", "getcwd"]
 
 
 def _sim_open(file, mode="r", buffering=-1, encoding=None, errors=None, newline=None, closefd=True, opener=None):
@@ -478,6 +487,8 @@ def install_global():
             setattr(os, n, wrappers[n])
     builtins.open = _sim_open
     io.open = _sim_open
+    _real["builtins.hash"] = builtins.hash
+    builtins.hash = _sim_hash
     _time.time = _sim_time
     _time.time_ns = _sim_time_ns
     _time.monotonic = _sim_monotonic
@@ -496,6 +507,7 @@ def bind(fs, sched, clock, entropy_seed=0, cwd=None):
     _STATE["clock"] = clock
     _STATE["entropy"] = _random.Random(entropy_seed)
     _STATE["incarnation"] = 0
+    _STATE["hash_salt"] = entropy_seed
     _STATE["proc_skew"] = 0
     _random.seed(entropy_seed)
     try:
@@ -534,6 +546,18 @@ def unbind():
             uuid.uuid4 = _real["uuid4"]
     except Exception:  # pragma: no cover
         pass
+
+
+def _sim_hash(obj):
+    """builtins.hash as the code under test sees it: str/bytes hashes are salted PER PROCESS (PYTHONHASHSEED is random by
+    default), so a value derived from hash('...') must not survive a simulated process restart unchanged.  Deterministic:
+    the salt is (run entropy seed, incarnation number), the digest is blake2 - not the interpreter's own salted hash."""
+    if _STATE["sched"] is not None and type(obj) in (str, bytes):
+        import hashlib as _hl
+        data = obj.encode("utf-8", "surrogatepass") if isinstance(obj, str) else obj
+        salt = ("%s|%s|" % (_STATE.get("hash_salt", 0), _STATE.get("incarnation", 0))).encode()
+        return int.from_bytes(_hl.blake2b(salt + data, digest_size=8).digest(), "big", signed=True)
+    return _real["builtins.hash"](obj)
 
 
 def real_open(*a, **kw):
